@@ -86,6 +86,7 @@ const (
 	initStorage = 100000 // bytes every realm is set to at the start (see setupRealmMeta)
 	initPrice   = 100    // ugnot per byte, vm.DefaultParams
 	userFunds   = 1000000000
+	poorFunds   = 5000 // u2
 	realmFunds  = 1000000
 )
 
@@ -241,7 +242,11 @@ func (e *env) setupRealmMeta() {
 		must(e.bankk.SetCoins(ctx, e.sym2addr[name], std.NewCoins(std.NewCoin("ugnot", realmFunds))))
 	}
 	for _, u := range userNames[:3] {
-		must(e.bankk.SetCoins(ctx, e.sym2addr[u], std.NewCoins(std.NewCoin("ugnot", userFunds))))
+		n := int64(userFunds)
+		if u == "u2" {
+			n = poorFunds
+		}
+		must(e.bankk.SetCoins(ctx, e.sym2addr[u], std.NewCoins(std.NewCoin("ugnot", n))))
 	}
 	e.bankk.RecomputeSupply(ctx)
 	mcw.MultiWrite()
@@ -413,40 +418,12 @@ func (e *env) addrString(sym string) string {
 	return sym
 }
 
-// concretise replaces symbolic addresses in a script by bech32 strings.
-func (e *env) concretise(prog string) string {
-	if prog == "" {
-		return ""
-	}
-	var outIns []string
-	for _, ins := range splitTop(prog, ';') {
-		f := splitTop(ins, ',')
-		switch f[0] {
-		case "sd":
-			if len(f) >= 3 {
-				f[1], f[2] = e.addrString(f[1]), e.addrString(f[2])
-			}
-		case "is", "rm":
-			if len(f) >= 2 {
-				f[1] = e.addrString(f[1])
-			}
-		case "x":
-			for i := 3; i < len(f); i++ {
-				if len(f[i]) >= 2 && f[i][0] == '{' && f[i][len(f[i])-1] == '}' {
-					f[i] = "{" + e.concretise(f[i][1:len(f[i])-1]) + "}"
-				}
-			}
-		}
-		outIns = append(outIns, strings.Join(f, ","))
-	}
-	return strings.Join(outIns, ";")
-}
-
 // ---------------------------------------------------------------- error classes
 
 func classify(msg string) string {
 	type rule struct{ sub, class string }
 	rules := []rule{
+		{"c08basic: ", "err:basic"},
 		{"c08: ", "err:script"},
 		{"use NewReadonlyBanker", "err:bt-readonly"},
 		{"invalid banker type", "err:bt-invalid"},
@@ -462,16 +439,36 @@ func classify(msg string) string {
 		{"cannot remove coins", "err:not-issuer"},
 		{"limit \"", "err:origin-limit"},
 		{"cross: rlm is not the current cur", "err:cross-stale"},
-		{"Sub: ", "err:sub"},
+		{"Sub: subpath cannot be empty", "err:sub-empty"},
+		{"Sub: synthesized pkgpath too long", "err:sub-long"},
+		{"Sub: receiver pkgpath is already synthesized", "err:sub-host"},
+		{"Sub: subpath must be", "err:sub-grammar"},
+		{"Sub: receiver is not the live cur", "err:sub-stale"},
+		{"Sub: no live crossing frame", "err:sub-stale"},
+		{"Sub: ephemeral realms", "err:sub-ephemeral"},
+		{"Sub: caller is not operating", "err:sub-foreign"},
 		{"frame not found", "err:no-previous"},
 		{"nil pointer dereference", "err:nil"},
+		{"method selector on nil interface", "err:nil"},
+		{"nil function", "err:nil"},
+		{"index out of range", "err:index"},
+		{"storage diff for unknown realm", "err:deposit-unknown-realm"},
+		{"not enough deposit to cover", "err:deposit-short"},
+		{"lockStorageDeposit failed", "err:deposit-lock"},
+		{"unable to return deposit", "err:deposit-lock"},
+		{"not enough storage to be released", "err:deposit-panic"},
+		{"not enough deposit to be unlocked", "err:deposit-panic"},
+		{"invalid result", "err:origin-add"},
+		{"empty param key", "err:param-key"},
+		{"invalid param key", "err:param-key"},
+		{"does not exist, it must receive coins", "err:unknown-address"},
+		{"unknown address", "err:unknown-address"},
 		{"insufficient", "err:insufficient"},
 		{"restricted token transfer", "err:restricted"},
 		{"invalid coins", "err:invalid-coins"},
-		{"amounts must be positive", "err:invalid-coins"},
-		{"out of range", "err:supply-range"},
+		{"<error: *errors.errorString>", "err:issue-rejected"}, // validateIssuance / nextSupply: plain fmt.Errorf, rendered opaquely
+		{"<error: bech32.", "err:bad-address"},
 		{"non realm-qualified denom", "err:not-realm-denom"},
-		{"not enough deposit", "err:deposit-short"},
 		{"invalid address", "err:bad-address"},
 		{"decoding bech32", "err:bad-address"},
 		{"overflow", "err:overflow"},
@@ -491,28 +488,58 @@ func parseCoins(tok string) (std.Coins, bool) {
 	if tok == "-" {
 		return nil, true
 	}
+	if !okCoinsToken(tok) || !okToken(tok) {
+		return nil, false
+	}
 	var cz std.Coins
 	for _, c := range strings.Split(tok, "+") {
 		i := strings.IndexByte(c, ':')
-		if i < 0 {
-			return nil, false
-		}
-		n, err := strconv.ParseInt(c[:i], 10, 64)
-		if err != nil {
-			return nil, false
-		}
+		n, _ := strconv.ParseInt(c[:i], 10, 64)
 		cz = append(cz, std.Coin{Denom: c[i+1:], Amount: n})
 	}
 	return cz, true
 }
 
-func (e *env) observe(f func() error) string {
+func parseDeposit(tok string) (std.Coins, bool) {
+	if !isInt64(tok) || strings.HasPrefix(tok, "-") {
+		return nil, false
+	}
+	n, _ := strconv.ParseInt(tok, 10, 64)
+	if n == 0 {
+		return nil, true
+	}
+	return std.Coins{{Denom: "ugnot", Amount: n}}, true
+}
+
+type observed struct {
+	status string
+	deltas []delta
+	metaB  map[string][2]uint64
+	metaA  map[string][2]uint64
+}
+
+func (o observed) String() string {
+	var meta []string
+	for _, name := range realmNames {
+		if o.metaA[name] != o.metaB[name] {
+			meta = append(meta, fmt.Sprintf("%s:%+d:%+d", name,
+				int64(o.metaA[name][0])-int64(o.metaB[name][0]), int64(o.metaA[name][1])-int64(o.metaB[name][1])))
+		}
+	}
+	ms := "-"
+	if len(meta) > 0 {
+		ms = strings.Join(meta, ",")
+	}
+	return o.status + " " + showDeltas(o.deltas) + " " + ms
+}
+
+func (e *env) observe(f func() error) observed {
 	before := e.snap()
-	metaB := e.realmMeta()
+	o := observed{metaB: e.realmMeta()}
 	err := f()
 	after := e.snap()
-	metaA := e.realmMeta()
-	status := "ok"
+	o.metaA = e.realmMeta()
+	o.status = "ok"
 	if err != nil {
 		if os.Getenv("VERIF_RAW") != "" {
 			msg := err.Error()
@@ -521,58 +548,115 @@ func (e *env) observe(f func() error) string {
 			}
 			fmt.Fprintf(os.Stderr, "RAW: %s\n", strings.ReplaceAll(msg, "\n", " | "))
 		}
-		status = classify(err.Error())
+		status := classify(err.Error())
+		o.status = status
 	}
-	var meta []string
-	for _, name := range realmNames {
-		if metaA[name] != metaB[name] {
-			meta = append(meta, fmt.Sprintf("%s:%+d:%+d", name,
-				int64(metaA[name][0])-int64(metaB[name][0]), int64(metaA[name][1])-int64(metaB[name][1])))
+	o.deltas = e.diff(before, after)
+	return o
+}
+
+func validUser(s string) bool {
+	for _, u := range userNames {
+		if u == s {
+			return true
 		}
 	}
-	ms := "-"
-	if len(meta) > 0 {
-		ms = strings.Join(meta, ",")
+	return false
+}
+
+func validRealm(s string) bool {
+	for _, r := range realmNames {
+		if r == s {
+			return true
+		}
 	}
-	return status + " " + showDeltas(e.diff(before, after)) + " " + ms
+	return false
 }
 
 func opCall(signer, realm, send, maxDep, prog string) (string, string) {
 	e := getEnv()
-	sa, ok := e.sym2addr[signer]
 	sc, ok2 := parseCoins(send)
-	md, ok3 := parseCoins(maxDep)
-	if !ok || !ok2 || !ok3 {
+	md, ok3 := parseDeposit(maxDep)
+	ast, ok4 := parseScript(prog)
+	if !validUser(signer) || !validRealm(realm) || !ok2 || !ok3 || !ok4 {
 		return "err:badop", "-"
 	}
-	out := e.observe(func() error {
+	sa := e.sym2addr[signer]
+	o := e.observe(func() error {
 		return e.tx(func(ctx sdk.Context) error {
-			msg := vm.NewMsgCall(sa, sc, realmPath(realm), "Do", []string{e.concretise(prog)})
+			msg := vm.NewMsgCall(sa, sc, realmPath(realm), "Do", []string{render(ast, e.addrString)})
 			msg.MaxDeposit = md
+			if err := msg.ValidateBasic(); err != nil {
+				return fmt.Errorf("c08basic: %w", err)
+			}
 			_, err := e.vmk.Call(ctx, msg)
 			return err
 		})
 	})
-	return out, "-"
+	return o.String(), oracleTx(o, "call", signer, realm, sc, ast)
 }
 
 func opRun(signer, send, maxDep, prog string) (string, string) {
 	e := getEnv()
-	sa, ok := e.sym2addr[signer]
 	sc, ok2 := parseCoins(send)
-	md, ok3 := parseCoins(maxDep)
-	if !ok || !ok2 || !ok3 {
+	md, ok3 := parseDeposit(maxDep)
+	ast, ok4 := parseScript(prog)
+	if !validUser(signer) || !ok2 || !ok3 || !ok4 {
 		return "err:badop", "-"
 	}
-	out := e.observe(func() error {
+	sa := e.sym2addr[signer]
+	o := e.observe(func() error {
 		return e.tx(func(ctx sdk.Context) error {
-			msg := vm.NewMsgRun(sa, sc, []*std.MemFile{{Name: "main.gno", Body: mainSource(e.concretise(prog))}})
+			msg := vm.NewMsgRun(sa, sc, []*std.MemFile{{Name: "main.gno", Body: mainSource(render(ast, e.addrString))}})
 			msg.MaxDeposit = md
+			if err := msg.ValidateBasic(); err != nil {
+				return fmt.Errorf("c08basic: %w", err)
+			}
 			_, err := e.vmk.Run(ctx, msg)
 			return err
 		})
 	})
-	return out, "-"
+	return o.String(), oracleTx(o, "run", signer, "", sc, ast)
+}
+
+func opSend(signer, dst, amt string) (string, string) {
+	e := getEnv()
+	cz, ok := parseCoins(amt)
+	if !validUser(signer) || !ok || !okToken(dst) {
+		return "err:badop", "-"
+	}
+	da, known := e.sym2addr[dst]
+	if !known {
+		return "err:badop", "-" // not an address: the message cannot even be built
+	}
+	o := e.observe(func() error {
+		return e.tx(func(ctx sdk.Context) error {
+			msg := bankm.MsgSend{FromAddress: e.sym2addr[signer], ToAddress: da, Amount: cz}
+			if err := msg.ValidateBasic(); err != nil {
+				return fmt.Errorf("c08basic: %w", err)
+			}
+			res := bankm.NewHandler(e.bankk).Process(ctx, msg)
+			if !res.IsOK() {
+				return fmt.Errorf("%s", res.Log+" "+fmt.Sprint(res.Error))
+			}
+			return nil
+		})
+	})
+	return o.String(), oracleTx(o, "send", signer, "", cz, nil)
+}
+
+func opPrice(n string) (string, string) {
+	e := getEnv()
+	md, ok := parseDeposit(n)
+	if !ok || len(md) == 0 {
+		return "err:badop", "-"
+	}
+	p := e.vmk.GetParams(e.caseCtx)
+	p.StoragePrice = md[0].String()
+	if err := e.vmk.SetParams(e.caseCtx, p); err != nil {
+		return "err:badop", "-"
+	}
+	return "ok", "-"
 }
 
 func exec(toks []string) (string, string) {
@@ -580,20 +664,22 @@ func exec(toks []string) (string, string) {
 	if len(toks) == 0 {
 		return bad()
 	}
-	prog := func(s string) string {
-		if s == "-" {
-			return ""
-		}
-		return s
-	}
 	switch toks[0] {
 	case "call":
 		if len(toks) == 6 {
-			return opCall(toks[1], toks[2], toks[3], toks[4], prog(toks[5]))
+			return opCall(toks[1], toks[2], toks[3], toks[4], toks[5])
 		}
 	case "run":
 		if len(toks) == 5 {
-			return opRun(toks[1], toks[2], toks[3], prog(toks[4]))
+			return opRun(toks[1], toks[2], toks[3], toks[4])
+		}
+	case "send":
+		if len(toks) == 4 {
+			return opSend(toks[1], toks[2], toks[3])
+		}
+	case "price":
+		if len(toks) == 2 {
+			return opPrice(toks[1])
 		}
 	}
 	return bad()
@@ -604,8 +690,6 @@ func reset() {
 		E.newCase()
 	}
 }
-
-func gen(w *kit.Out, r *kit.Rand, tier string) {}
 
 func main() {
 	kit.Main(&kit.Harness{Gen: gen, Reset: reset, Exec: exec})
